@@ -1,6 +1,9 @@
 import Ptn.C04.Core
 import Ptn.C04.Value
 import Ptn.C04.ValueOp
+import Ptn.C04.ValueCentre
+import Ptn.C04.CentreModel
+import Ptn.C06.Demo
 /-! Property theorems for C04: the leg-graph theorems are in `Core.lean` (core Lean only), the value-level
 theorem in `Value.lean` (over `Ptn/Common/Einsum*.lean`, single Mathlib modules).  This file only adds the
 non-vacuity example of the value-level theorem. -/
@@ -186,5 +189,172 @@ example : demoTree.ids.Nodup ∧ (∀ e ∈ Tree.info none demoTree, (demoBraKid
     have : e = (0, none, [1]) ∨ e = (1, some 0, []) := by simpa [demoTree, Tree.info, Tree.infoL, Tree.id] using he
     rcases this with rfl | rfl <;> intro σ τ h <;>
       simp only [demoBv] <;> rw [h _ (by simp [gBraT, T.fresh, Node.nbrs]), h _ (by simp [gBraT, T.fresh, Node.nbrs])]
+
+
+/-! ## Centre shortcuts, `apply_operator`, `conjugate` (helper lemmas: `ValueCentre.lean`, `CentreModel.lean`) -/
+
+section centre
+set_option linter.unusedSectionVars false
+variable {L : Type} [DecidableEq L] {R : Type} [CommSemiring R]
+
+/-- **The shortcut of `scalar_product()` is sound for canonical states.**  GIVEN the network is canonical with
+centre `c` in index form (`Centre.Canon`: what C03 `canonical_form_centre_norm` establishes after
+`canonical_form`), (1) the full norm network has the value of `Σ C · Cc` over one common index per leg of the
+centre tensor — what `np.tensordot(tensor, tensor.conj(), axes=(legs, legs))` computes — and (2) EVERY strongly
+well-formed contraction program over the tensors of the norm network with the norm network's record — by
+`contract_two_ttns_value` the loop of `contract_two_ttns(self, self.conjugate())` is one — evaluates to that
+shortcut value. -/
+theorem centre_shortcut_value (dim : L → Nat) (c : Centre L R) (hc : c.Canon dim) (hnd : c.labels.Nodup) :
+    (∀ σ, netValue dim c.normBinds c.normLeaves σ = netValue dim (c.phys ++ c.kids.pairs) [c.C, c.Cc] σ) ∧
+    ∀ e : Expr L R, e.SWF → e.binds.Perm c.normBinds → (e.leaves.map Prod.snd).Perm c.normLeaves →
+      ∀ σ, e.eval dim σ = netValue dim (c.phys ++ c.kids.pairs) [c.C, c.Cc] σ := by
+  refine ⟨fun σ => centre_norm_eq_full_norm_value dim c hc hnd σ, ?_⟩
+  intro e he hb hl σ
+  rw [c04_eval_eq_netValue dim e he _ _ hb hl σ]
+  exact centre_norm_eq_full_norm_value dim c hc hnd σ
+
+/-- **The shortcut of `single_site_operator_expectation_value` is sound for canonical states** (environment =
+identity ⟹ `⟨ψ|O_c|ψ⟩ = Σ C·O·Cc`).  `O`: an operator tensor reading only its own legs `ops` (pairs
+`(out, in)`), which occur nowhere else; `B`: ANY binding record among `C`, `O`, `Cc` — for the library
+`(ket open leg, in)` and `(out, bra open leg)`.  The full sandwich network (all tensors of all nodes, the
+operator, all conjugated tensors; `B` and every bond of both copies and every pair of open legs of the other
+nodes) has the value of the three-tensor network `C, O, Cc` summed over `B` and one common index per bond of the
+centre; and every strongly well-formed program with that record evaluates to it. -/
+theorem centre_operator_value (dim : L → Nat) (c : Centre L R) (hc : c.Canon dim) (O : Asg L → R)
+    (ops : List (L × L)) (hO : DependsOn (· ∈ Expr.pairLegs ops) O)
+    (hnd : (Expr.pairLegs ops ++ c.labels).Nodup) (B : List (L × L)) :
+    (∀ σ, netValue dim (B ++ c.kids.binds) (c.C :: O :: c.Cc :: c.kids.leaves) σ =
+        netValue dim (B ++ c.kids.pairs) [c.C, O, c.Cc] σ) ∧
+    ∀ e : Expr L R, e.SWF → e.binds.Perm (B ++ c.kids.binds) →
+      (e.leaves.map Prod.snd).Perm (c.C :: O :: c.Cc :: c.kids.leaves) →
+      ∀ σ, e.eval dim σ = netValue dim (B ++ c.kids.pairs) [c.C, O, c.Cc] σ := by
+  obtain ⟨hndo, hndc, hdis⟩ := List.nodup_append.1 hnd
+  obtain ⟨hC, hCc⟩ := c04_centre_C_outside dim c hc hndc
+  have hk : c.kids.labels.Nodup := by
+    simp only [Centre.labels, List.nodup_append] at hndc
+    exact hndc.2.1
+  have hO' : DependsOn (· ∉ c.kids.inner) O := by
+    refine hO.mono ?_
+    intro l hl hi
+    exact hdis l hl l (by simp [Centre.labels, Kids.inner_sub c.kids l hi]) rfl
+  have main : ∀ σ, netValue dim (B ++ c.kids.binds) (c.C :: O :: c.Cc :: c.kids.leaves) σ =
+      netValue dim (B ++ c.kids.pairs) [c.C, O, c.Cc] σ := by
+    intro σ
+    have := c04_env_absorb dim c.kids hc.2.2 hk B [c.C, O, c.Cc] (by
+      intro f hf
+      simp only [List.mem_cons, List.not_mem_nil, or_false] at hf
+      rcases hf with rfl | rfl | rfl <;> assumption) σ
+    simpa using this
+  refine ⟨main, ?_⟩
+  intro e he hb hl σ
+  rw [c04_eval_eq_netValue dim e he _ _ hb hl σ]
+  exact main σ
+
+/-- **`apply_operator` on one node multiplies the state vector by the operator.**  `ψ`: the state network
+(leaf tensors `rest`, record `binds`); `G`: the operator tensor, reading only legs `S` that are not bound in
+`ψ`; `pp`: the pairs `absorb_into_open_legs` binds (`absorb_into_open_legs_legs`: every open leg of the node with
+the operator's input leg of the same position).  The new network evaluates to `Σ_in G[out, in] · ψ[… in …]`. -/
+theorem apply_operator_node_value (dim : L → Nat) (binds : List (L × L)) (G : Asg L → R)
+    (rest : List (Asg L → R)) (pp : List (L × L)) {S : L → Prop}
+    (hG : DependsOn S G) (hdis : ∀ l ∈ Expr.pairLegs binds, ¬ S l)
+    (hnd : (Expr.pairLegs (binds ++ pp)).Nodup) (σ : Asg L) :
+    netValue dim (binds ++ pp) (G :: rest) σ =
+      sumPairs dim pp (fun τ => G τ * netValue dim binds rest τ) σ :=
+  c04_apply_operator_pairs dim binds G rest pp hG hdis hnd σ
+
+/-- **`conjugate()` conjugates the value.**  For every ring homomorphism `cj` (complex conjugation on `ℂ`):
+the network with the same record in which every tensor is replaced entry-wise by its image has the value
+`cj(ψ)`; and the same for every contraction program (`conjExpr`: same nesting, same pairs, images of the
+leaves) — with no well-formedness hypothesis at all. -/
+theorem conjugate_value {R' : Type} [CommSemiring R'] (cj : R →+* R') (dim : L → Nat) :
+    (∀ (binds : List (L × L)) (leaves : List (Asg L → R)) (σ : Asg L),
+      netValue dim binds (leaves.map (fun f τ => cj (f τ))) σ = cj (netValue dim binds leaves σ)) ∧
+    ∀ (e : Expr L R) (σ : Asg L), (conjExpr cj e).eval dim σ = cj (e.eval dim σ) ∧
+      (conjExpr cj e).binds = e.binds ∧ (conjExpr cj e).free = e.free := by
+  refine ⟨?_, fun e σ => ⟨conjExpr_eval cj dim e σ, conjExpr_binds cj e, conjExpr_free cj e⟩⟩
+  intro binds leaves σ
+  unfold netValue
+  rw [sumPairs_map]
+  apply sumPairs_congr
+  intro τ
+  rw [c04_prodL_map, List.map_map, List.map_map]
+  rfl
+
+end centre
+
+/-- **`absorb_into_open_legs` on labels.**  Node tensor with virtual legs `vs` then open legs `ps`, operator with
+legs `outs ++ ins` (as many of each as the node has open legs): the call succeeds, binds every open leg to the
+input leg of the same position, keeps the virtual legs in place and puts the output legs where the open legs
+were. -/
+theorem absorb_into_open_legs_legs (vs ps outs ins : List Leg) (bs bs' : List (Leg × Leg))
+    (h1 : outs.length = ps.length) (h2 : ins.length = ps.length) :
+    absorbIntoOpenLegs ⟨vs ++ ps, bs⟩ ⟨outs ++ ins, bs'⟩ vs.length =
+      some ⟨vs ++ outs, bs ++ bs' ++ ps.zip ins⟩ :=
+  absorbIntoOpenLegs_eq vs ps outs ins bs bs' h1 h2
+
+example : absorbIntoOpenLegs ⟨[.gKet 0 1, .gKet 0 2, .gKetPhys 0], []⟩ ⟨[.gOpOut 0, .gOpIn 0], []⟩ 2 =
+    some ⟨[.gKet 0 1, .gKet 0 2, .gOpOut 0], [(.gKetPhys 0, .gOpIn 0)]⟩ := by decide
+
+/-- a tensor with the wrong number of legs is rejected (`assert tensor.ndim == 2 * nopen_legs`) -/
+example : absorbIntoOpenLegs ⟨[.gKet 0 1, .gKetPhys 0], []⟩ ⟨[.gOpOut 0, .gOpIn 0, .gOpIn 1], []⟩ 1 = none := by
+  decide
+
+/-- **What `apply_operator` does to the recorded orthogonality centre (repair F-C04b, the code as it is now).**
+After absorbing operators into the nodes `ns` the record is kept exactly if there was one and every touched node
+is the centre itself; otherwise it is dropped. -/
+theorem apply_operator_orth_centre (oc : Option Nat) (ns : List Nat) :
+    applyOperatorOrthCentre oc ns =
+      match oc with
+      | none => none
+      | some c => if ∀ n ∈ ns, n = c then some c else none := by
+  induction ns generalizing oc with
+  | nil => cases oc <;> simp [applyOperatorOrthCentre]
+  | cons n rest ih =>
+    cases oc with
+    | none => simp [applyOperatorOrthCentre, absorbOrthCentre, ih]
+    | some c =>
+      by_cases h : c = n
+      · subst h
+        simp [applyOperatorOrthCentre, absorbOrthCentre, ih]
+      · have h' : ¬ n = c := fun e => h e.symm
+        simp [applyOperatorOrthCentre, absorbOrthCentre, ih, h, h']
+
+example : applyOperatorOrthCentre (some 3) [3, 3] = some 3 ∧ applyOperatorOrthCentre (some 3) [3, 4] = none ∧
+    applyOperatorOrthCentre none [3] = none := by decide
+
+/-- the shortcuts on labels: all legs of the centre tensor are bound to the same positions of its conjugate; with
+an operator the last leg goes through the operator (`axes=(-1, 1)`) -/
+example : centreScalarProduct ⟨[.gKet 0 1, .gKetPhys 0], []⟩ ⟨[.gBra 0 1, .gBraPhys 0], []⟩ =
+      some ⟨[], [(.gKet 0 1, .gBra 0 1), (.gKetPhys 0, .gBraPhys 0)]⟩ ∧
+    centreSingleSite ⟨[.gKet 0 1, .gKetPhys 0], []⟩ ⟨[.gOpOut 0, .gOpIn 0], []⟩ ⟨[.gBra 0 1, .gBraPhys 0], []⟩ =
+      some ⟨[], [(.gKetPhys 0, .gOpIn 0), (.gKet 0 1, .gBra 0 1), (.gOpOut 0, .gBraPhys 0)]⟩ := by decide
+
+/-! ### non-vacuity: the canonical demo tree of `Ptn/C06/Demo.lean` (centre — B — A, centre — A2, over ℂ) -/
+
+/-- the hypotheses of `centre_shortcut_value` hold for a concrete canonical network with non-trivial isometries -/
+example : Ptn.C06.Demo.centre.Canon Ptn.C06.Demo.dim ∧ Ptn.C06.Demo.centre.labels.Nodup :=
+  ⟨Ptn.C06.Demo.centre_canon, Ptn.C06.Demo.centre_nodup⟩
+
+/-- an operator on the centre's open leg: legs 29 (out), 39 (in), reading both -/
+def demoCentreOp : Asg Nat → ℂ := fun σ => (σ 29 : ℂ) + 2 * σ 39 + 1
+
+/-- the hypotheses of `centre_operator_value` hold for the demo tree with that operator -/
+example : DependsOn (· ∈ Expr.pairLegs [((29 : Nat), (39 : Nat))]) demoCentreOp ∧
+    (Expr.pairLegs [((29 : Nat), (39 : Nat))] ++ Ptn.C06.Demo.centre.labels).Nodup := by
+  constructor
+  · intro σ τ h
+    simp only [demoCentreOp]
+    rw [h 29 (by simp [Expr.pairLegs]), h 39 (by simp [Expr.pairLegs])]
+  · simp [Ptn.C06.Demo.centre, Centre.labels, Ptn.C06.Demo.kids, Ptn.C06.Demo.subB, Ptn.C06.Demo.subA,
+      Ptn.C06.Demo.subA2, Sub.labels, Kids.labels, Expr.pairLegs]
+
+/-- the hypotheses of `apply_operator_node_value`: a two-tensor state `ψ = Σ_b A[b, p]·B[b']`, gate on `p` -/
+example : DependsOn (· ∈ [(10 : Nat), 11]) (fun σ : Asg Nat => ((σ 10 : Int) + 2 * σ 11 + 1)) ∧
+    (∀ l ∈ Expr.pairLegs [((0 : Nat), (1 : Nat))], ¬ l ∈ [(10 : Nat), 11]) ∧
+    (Expr.pairLegs ([((0 : Nat), (1 : Nat))] ++ [(11, 2)])).Nodup := by
+  refine ⟨?_, by simp [Expr.pairLegs], by simp [Expr.pairLegs]⟩
+  intro σ τ h
+  show ((σ 10 : Int) + 2 * σ 11 + 1) = ((τ 10 : Int) + 2 * τ 11 + 1)
+  rw [h 10 (by simp), h 11 (by simp)]
 
 end Ptn.C04
